@@ -442,6 +442,12 @@ int gen_stream(Ctx& ctx) {
 int main(int argc, char** argv) {
     Ctx ctx;
     ctx.parse(argc, argv, "C01");
+    // data-memory contents differ per (seed, shard); both the tree side and the reference side derive the same salt
+    {
+        u64 h = mix(mix(ctx.seed, 0xDA7A), (u64)ctx.shard);
+        g_data_pattern_mul = (u32)(h & 0xFFFE) | 1;
+        g_data_pattern_add = (u32)((h >> 20) & 0xFFFF);
+    }
     int rc = 0;
     if (ctx.mode == "refstream")
         return ref_stream(ctx);
